@@ -979,6 +979,24 @@ func runMatchPair(c *core.Ctx) {
 			}
 			detail = "a match is possible when #found ∈ " + acc.Format("#conditions")
 			okCount = acc.Equal(an.Range(0, an.PosInf))
+			// a name enters the found set only where the condition map lists it (the one update, behind
+			// the lookup): there are never more found names than conditions, so "exactly as many" says
+			// the same as "at least as many"
+			if !okCount && guarded && valOK {
+				only := true
+				an.Instrs(host, func(in ssa.Instruction) {
+					if m, isMU := in.(*ssa.MapUpdate); isMU && m != mu {
+						for k := range localMapSites(m.Map) {
+							if sites[k] {
+								only = false
+							}
+						}
+					}
+				})
+				if only && acc.Intersect(an.Range(an.NegInf, 0)).Equal(an.Range(0, 0)) {
+					okCount = true
+				}
+			}
 		}
 	}
 	// … and that verdict forces Match's, through every helper level
@@ -1491,7 +1509,7 @@ func runCombTab(c *core.Ctx) {
 			return
 		}
 		call := an.CallOf(st.Val)
-		if call == nil || !strings.HasSuffix(an.CalleeName(&call.Call), "NewReqFilterMatcher") {
+		if call == nil || !isMemberCtor(P, call) {
 			return
 		}
 		// ret[i] = NewReqFilterMatcher(filters[i]) with the same range counter
@@ -1513,7 +1531,7 @@ func runCombTab(c *core.Ctx) {
 				continue
 			}
 			call := an.CallOf(elems[0].val)
-			if call == nil || !strings.HasSuffix(an.CalleeName(&call.Call), "NewReqFilterMatcher") {
+			if call == nil || !isMemberCtor(P, call) {
 				continue
 			}
 			arg := call.Call.Args[0]
@@ -1790,4 +1808,14 @@ func memberLookup(v ssa.Value) *ssa.Lookup {
 		}
 	}
 	return nil
+}
+
+// isMemberCtor: the call builds one filter's matcher — NewReqFilterMatcher, or the variant with more
+// parameters that NewReqFilterMatcher merely forwards to.
+func isMemberCtor(P *core.Program, call *ssa.Call) bool {
+	if strings.HasSuffix(an.CalleeName(&call.Call), "NewReqFilterMatcher") {
+		return true
+	}
+	f := an.StaticCallee(&call.Call)
+	return f != nil && sameFunc(f, P.Func(P.Root, "NewReqFilterMatcher"))
 }
